@@ -71,7 +71,7 @@ Proof. exact EndToEndFull.transparent_ok_statement_holds. Qed.
    nums = [1; -5000000000], the implementation sets nums = []; the caller read the old nums) satisfies all its
    hypotheses and, on the repaired model and code, its conclusion: the caller reads nums = [] *)
 Theorem C01_prefilled_out_witness :
-  find_fn [fx_sig] (fs_name fx_sig) = Some fx_sig /\ sig_fine env0 2 4 fx_sig /\ args_typed env0 (fs_args fx_sig) fx_args_prefilled /\
+  find_fn [fx_sig] (fs_name fx_sig) = Some fx_sig /\ sig_fine env0 8 4 fx_sig /\ args_typed env0 (fs_args fx_sig) fx_args_prefilled /\
   outs_small fx_sig fx_args_prefilled /\ results_typed env0 fx_sig (results ex_ret fx_outs_empty) /\
   req_sendable env0 SR MAXP fx_qp /\ rsp_sendable env0 SP MAXP (ok_reply env0 fx_sig fx_qp ex_ret fx_outs_empty ex_rc ex_rs) /\
   fst (call env0 SR SP MAXP fx_impl_empty (filters_of inv_res ex_pc) (filters_of disp_res ex_ps) [fx_sig] fx_sig fx_args_prefilled ex_opts false 41 [79; 98; 106] 3000)
